@@ -565,7 +565,7 @@ func TestC12(t *testing.T) {
 	r := vh.Sub(seed, "c12")
 	prev := gomavlib.VerifSetReconnectPeriod(60 * time.Millisecond)
 	defer gomavlib.VerifSetReconnectPeriod(prev)
-	K := vh.Pick(3, 5)
+	K := vh.Pick(3, 12)
 	stuck := false
 	job := 0
 	// one child process per group of scenario kinds: the known UDP-listener crash (DESIGN §5 F9) kills the
@@ -650,7 +650,7 @@ func TestC12(t *testing.T) {
 			}
 		}
 		// a few closes at random instants with everything on
-		for i := 0; i < vh.Pick(6, 20) && !stuck; i++ {
+		for i := 0; i < vh.Pick(6, 80) && !stuck; i++ {
 			job++
 			if !byGroup && job%nsh != shard {
 				continue
